@@ -1,9 +1,11 @@
 (* C05 -- executable model of the origin side of "sending value off-chain":
-     core/vm/instructions.go  opETX, opConvert, opCall
-     core/vm/evm.go           EVM.Call (snapshot / revert), EVM.CreateETX
-     core/vm/interpreter.go   Run (stack validation, constant / dynamic gas, memory size)
+     core/vm/instructions.go  opETX, opConvert, opCall, opCallCode, opDelegateCall, opStaticCall, opCreate, opCreate2
+     core/vm/evm.go           EVM.Call / CallCode / DelegateCall / StaticCall / Create / Create2 / create
+                              (snapshot / revert of every frame kind), EVM.CreateETX
+     core/vm/interpreter.go   Run (stack validation, write protection, constant / dynamic gas, memory size)
    for the restricted instruction set the C05 harness programs are made of
-   (PUSH32, POP, MSTORE, ETX, CONVERT, CALL, STOP, REVERT, 0xfe).
+   (PUSH32, POP, MSTORE, ETX, CONVERT, CALL, CALLCODE, DELEGATECALL, STATICCALL, CREATE, CREATE2,
+    STOP, RETURN, REVERT, 0xfe).
    The model mirrors the branch order of the Go code INCLUDING its defects
    (debit before the post-debit checks, missing status word).  Definitions only;
    proofs are in Proofs/C05.v.  Constants and jump-table rows come from
@@ -32,16 +34,28 @@ Definition reserved (a : N) : bool := (a mod 2 ^ 152) <=? 10.
 
 Record etx := mkEtx { e_to : N; e_sender : N; e_value : N; e_index : N; e_type : N; e_gas : N }.
 
+(* the four message-call opcodes *)
+Inductive ckind := CkCall | CkCallCode | CkDelegate | CkStatic.
+
 Inductive instr :=
 | IPush (w : N)          (* PUSH32 w *)
 | IPop
 | IMstore                (* MSTORE: pops offset, value *)
 | IEtx (alok : bool)     (* ETX; alok = "rlp.DecodeBytes(access-list blob) succeeded" (oracle, see design/C05.md) *)
 | IConvert
-| ICall
+| ICallK (k : ckind)     (* CALL / CALLCODE / DELEGATECALL / STATICCALL *)
+| ICreate (two : bool) (init : list instr) (naddr grind : N)
+                         (* CREATE (two = false) / CREATE2.  Oracles (memory contents and Keccak are not modelled):
+                            init  = the init code read from memory [offset, offset+size), decompiled;
+                            naddr = the address crypto.CreateAddress / GrindContract / CreateAddress2 yields;
+                            grind = gas GrindContract charges before it finds naddr (0 if no grinding). *)
 | IStop
+| IReturn                (* RETURN: pops offset, size; in a constructor the returned bytes are the code to deposit *)
 | IRevert
 | IInvalid.              (* 0xfe, undefined opcode *)
+
+(* kind of a frame: a message call, or a constructor *)
+Inductive fkind := FK (k : ckind) | FCreate (init : list instr) (naddr grind : N).
 
 Record ctx := mkCtx {
   x_pfx : N;                       (* chainConfig.Location.BytePrefix() *)
@@ -208,15 +222,22 @@ Definition can_transfer (c : ctx) (w : world) (a v : N) : bool :=
 (* ---------- events (what happened, in execution order) ---------- *)
 Inductive ev :=
 | EvOp (k : N) (r : opres)            (* k = 0 ETX, 1 CONVERT, 2 CreateETX *)
-| EvCall (ok : bool) (sub : list ev). (* a CALL (or the top-level Call); ok = (err == nil) *)
+| EvCall (ok : bool) (sub : list ev). (* a frame of any kind (or the top-level Call); ok = the frame was not reverted:
+                                        err == nil, or -- constructors only -- err == ErrCodeStoreOutOfGas *)
 
 (* ---------- one call frame (core/vm/interpreter.go:Run) ---------- *)
 Record fstate := mkF { f_stack : list N; f_gas : N; f_mlen : N; f_mlast : N }.
-Inductive halt := HStop | HRevert | HFault.
+(* HFaultExt: the frame faults with common.ErrExternalAddress, which the call opcodes re-raise in the
+   calling frame (instructions.go:opCall & co: "else if err == common.ErrExternalAddress { return nil, err }") *)
+Inductive halt := HStop | HReturn (n : N) | HRevert | HFault | HFaultExt.   (* n = len(ret) *)
 
-(* result of EVM.Call: err class (0 nil, 1 ErrExecutionReverted, 2 other error, 3 model out of fuel,
-   4 address outside the modelled domain), leftover gas, world, events *)
+(* result of EVM.Call & co: err class (0 nil, 1 ErrExecutionReverted, 2 other error, 3 model out of fuel,
+   4 address outside the modelled domain, 5 common.ErrExternalAddress, 6 ErrCodeStoreOutOfGas), leftover gas,
+   world, events *)
 Record cres := mkC { c_err : N; c_gas : N; c_world : world; c_tr : list ev }.
+(* evm.go:create: "if err != nil && err != ErrCodeStoreOutOfGas { evm.revertToSnapshot(snapshot) ... }":
+   a constructor that cannot pay for the deposit of its code fails WITHOUT being reverted *)
+Definition kept (r : cres) : bool := (c_err r =? 0) || (c_err r =? 6).
 
 (* common.go:calcMemSize64 -- None = overflow *)
 Definition calc_mem (off len : N) : option N :=
@@ -254,12 +275,41 @@ Definition add_gas (f : fstate) (g : N) : fstate := mkF (f_stack f) (f_gas f + g
 
 Definition status_of (r : cres) : N := if c_err r =? 0 then 1 else 0.
 
+(* jump-table row and stack arguments of the four call opcodes:
+   (gas, addr, value, inOffset, inSize, retOffset, retSize, rest); DELEGATECALL / STATICCALL carry no value *)
+Definition row_of (k : ckind) : oprow :=
+  match k with CkCall => row_CALL | CkCallCode => row_CALLCODE | CkDelegate => row_DELEGATECALL | CkStatic => row_STATICCALL end.
+Definition is_call (k : ckind) : bool := match k with CkCall => true | _ => false end.
+Definition call_args (k : ckind) (st : list N) : option (N * N * N * N * N * N * N * list N) :=
+  match k with
+  | CkCall | CkCallCode =>
+      match st with
+      | g :: addr :: value :: ioff :: isz :: roff :: rsz :: st' => Some (g, addr, value, ioff, isz, roff, rsz, st')
+      | _ => None
+      end
+  | CkDelegate | CkStatic =>
+      match st with
+      | g :: addr :: ioff :: isz :: roff :: rsz :: st' => Some (g, addr, 0, ioff, isz, roff, rsz, st')
+      | _ => None
+      end
+  end.
+(* CREATE: value, offset, size;  CREATE2: endowment, offset, size, salt *)
+Definition create_args (two : bool) (st : list N) : option (N * N * N * list N) :=
+  match st with
+  | value :: off :: size :: st' =>
+      if two then match st' with _ :: st'' => Some (value, off, size, st'') | [] => None end
+      else Some (value, off, size, st')
+  | _ => None
+  end.
+
 Section Exec.
-  (* EVM.Call one level down: depth caller addr gas value world *)
-  Variable callf : N -> N -> N -> N -> N -> world -> cres.
+  (* EVM.Call / CallCode / DelegateCall / StaticCall / Create one level down:
+     kind, read-only, depth, calling contract (scope.Contract.Address()), target address, gas, value, world *)
+  Variable callf : fkind -> bool -> N -> N -> N -> N -> N -> world -> cres.
   Variable c : ctx.
+  Variable ro : bool.   (* interpreter.readOnly while this frame runs (inside a STATICCALL) *)
   Variable depth : N.   (* evm.depth while this frame runs *)
-  Variable self : N.    (* contract.Address() *)
+  Variable self : N.    (* contract.Address(): the account whose balance / identity the frame acts with *)
 
   Definition fault (f : fstate) (w : world) (tr : list ev) : halt * fstate * world * list ev := (HFault, f, w, tr).
 
@@ -270,6 +320,28 @@ Section Exec.
     | i :: rest =>
       match i with
       | IStop => (HStop, f, w, tr)
+      | IReturn =>
+          if stack_bad row_RETURN f then fault f w tr else
+          match f_stack f with
+          | off :: sz :: st =>
+            match calc_mem off sz with
+            | None => fault f w tr
+            | Some msz =>
+              match mem_size32 msz with
+              | None => fault f w tr
+              | Some ms =>
+                match mem_gas f ms with
+                | None => fault f w tr
+                | Some (fee, last) =>
+                  match use_gas fee (with_mlast f last) with
+                  | None => fault f w tr
+                  | Some f2 => (HReturn sz, with_stack (resize f2 ms) st, w, tr)
+                  end
+                end
+              end
+            end
+          | _ => fault f w tr
+          end
       | IInvalid => fault f w tr
       | IPush v =>
           if stack_bad row_PUSH32 f then fault f w tr else
@@ -333,6 +405,7 @@ Section Exec.
           end
       | IEtx alok =>
           if stack_bad row_ETX f then fault f w tr else
+          if ro && r_writes row_ETX then fault f w tr else      (* interpreter.go: ErrWriteProtection *)
           match use_gas (cgas row_ETX) f with                   (* constantGas gasEtx *)
           | None => fault f w tr
           | Some f1 =>
@@ -355,6 +428,7 @@ Section Exec.
           end
       | IConvert =>
           if stack_bad row_CONVERT f then fault f w tr else
+          if ro && r_writes row_CONVERT then fault f w tr else
           match use_gas (cgas row_CONVERT) f with
           | None => fault f w tr
           | Some f1 =>
@@ -365,26 +439,31 @@ Section Exec.
             | _ => fault f1 w tr
             end
           end
-      | ICall =>
-          if stack_bad row_CALL f then fault f w tr else
-          match use_gas WarmStorageReadCost f with              (* constantGas gasWarmStorageRead *)
+      | ICallK k =>
+          if stack_bad (row_of k) f then fault f w tr else
+          match call_args k (f_stack f) with
           | None => fault f w tr
-          | Some f1 =>
-            match f_stack f1 with
-            | g :: addr :: value :: ioff :: isz :: roff :: rsz :: st =>
-              match calc_mem roff rsz, calc_mem ioff isz with   (* memoryCall *)
+          | Some (g, addr, value, ioff, isz, roff, rsz, st) =>
+            (* interpreter.go: in a read-only frame "op == CALL && stack.Back(2).Sign() != 0" is ErrWriteProtection *)
+            if ro && is_call k && negb (value =? 0) then fault f w tr else
+            match use_gas WarmStorageReadCost f with              (* constantGas gasWarmStorageRead *)
+            | None => fault f w tr
+            | Some f1 =>
+              match calc_mem roff rsz, calc_mem ioff isz with     (* memoryCall / memoryDelegateCall / memoryStaticCall *)
               | Some x, Some y =>
                 match mem_size32 (N.max x y) with
                 | None => fault f1 w tr
                 | Some ms =>
-                  (* operations_acl.go:makeCallVariantGasCall with a warm address, then gas_table.go:gasCall *)
+                  (* operations_acl.go:makeCallVariantGasCall with a warm address, then gas_table.go:gasCall /
+                     gasCallCode / gasDelegateCall / gasStaticCall *)
                   let to := addr mod W160 in
-                  if negb (internal_quai (x_pfx c) to) then fault f1 w tr   (* gasCall: InternalAndQuaiAddress error => ErrOutOfGas *)
+                  (* gasCall only: InternalAndQuaiAddress error => ErrOutOfGas *)
+                  if is_call k && negb (internal_quai (x_pfx c) to) then fault f1 w tr
                   else
                     match mem_gas f1 ms with
                     | None => fault f1 w tr
                     | Some (mfee, last) =>
-                      let base := (if negb (value =? 0) && empty_acct c w to then CallNewAccountGas else 0)
+                      let base := (if is_call k && negb (value =? 0) && empty_acct c w to then CallNewAccountGas else 0)
                                   + (if negb (value =? 0) then CallValueTransferGas else 0) + mfee in
                       (* base > contract.Gas: callGas underflows and the total can never be paid: ErrOutOfGas *)
                       if f_gas f1 <? base then fault f1 w tr else
@@ -395,57 +474,157 @@ Section Exec.
                       | None => fault f1 w tr
                       | Some f2 =>
                         let f3 := resize f2 ms in
-                        (* instructions.go:opCall *)
+                        (* instructions.go:opCall / opCallCode / opDelegateCall / opStaticCall *)
                         let gas' := temp + (if negb (value =? 0) then CallStipend else 0) in
-                        let r := callf depth self to gas' value w in
-                        exec rest (add_gas (with_stack f3 (status_of r :: st)) (c_gas r)) (c_world r)
-                             (tr ++ [EvCall (c_err r =? 0) (c_tr r)])
+                        let r := callf (FK k) ro depth self to gas' value w in
+                        if c_err r =? 5
+                        then (HFaultExt, f3, w, tr ++ [EvCall false (c_tr r)])   (* ErrExternalAddress is re-raised *)
+                        else exec rest (add_gas (with_stack f3 (status_of r :: st)) (c_gas r)) (c_world r)
+                                  (tr ++ [EvCall (kept r) (c_tr r)])
                       end
                     end
                 end
               | _, _ => fault f1 w tr
               end
-            | _ => fault f1 w tr
+            end
+          end
+      | ICreate two init naddr grind =>
+          let row := if two then row_CREATE2 else row_CREATE in
+          if stack_bad row f then fault f w tr else
+          if ro && r_writes row then fault f w tr else          (* interpreter.go: ErrWriteProtection *)
+          match use_gas (cgas row) f with                       (* constantGas gasCreateConstant / gasCreate2Constant *)
+          | None => fault f w tr
+          | Some f1 =>
+            match create_args two (f_stack f1) with
+            | None => fault f1 w tr
+            | Some (value, off, size, st) =>
+              match calc_mem off size with                      (* memoryCreate / memoryCreate2 *)
+              | None => fault f1 w tr
+              | Some msz =>
+                match mem_size32 msz with
+                | None => fault f1 w tr
+                | Some ms =>
+                  match mem_gas f1 ms with                      (* gasCreate = pureMemoryGascost; gasCreate2 adds the hashing *)
+                  | None => fault f1 w tr
+                  | Some (mfee, last) =>
+                    let wfee := if two then to_words size * Sha3WordGas else 0 in
+                    match use_gas (mfee + wfee) (with_mlast f1 last) with
+                    | None => fault f1 w tr
+                    | Some f2 =>
+                      let f3 := resize f2 ms in
+                      (* instructions.go:opCreate / opCreate2: all but one 64th of the gas goes to the constructor *)
+                      let gsub := f_gas f3 - f_gas f3 / 64 in
+                      let r := callf (FCreate init naddr grind) ro depth self 0 gsub value w in
+                      let f4 := mkF ((if c_err r =? 0 then naddr else 0) :: st) (f_gas f3 - gsub + c_gas r) (f_mlen f3) (f_mlast f3) in
+                      exec rest f4 (c_world r) (tr ++ [EvCall (kept r) (c_tr r)])
+                    end
+                  end
+                end
+              end
             end
           end
       end
+    end.
+
+  (* interpreter.Run on the code of a frame whose snapshot is w and whose entry state is w1, then the
+     common tail of Call / CallCode / DelegateCall / StaticCall / create:
+     "if err != nil { evm.revertToSnapshot(snapshot); if err != ErrExecutionReverted { gas = 0 } }" *)
+  (* deposit = the frame is a constructor (evm.go:create): the returned bytes are stored as the code of the
+     new account: maximum size, (first byte 0xEF: outside the domain, the harness drops such cases),
+     CreateDataGas per byte -- and if that cannot be paid the frame fails but is NOT reverted *)
+  Definition run_frame (deposit : bool) (code : option (list instr)) (gas : N) (w w1 : world) : cres :=
+    match code with
+    | None | Some [] => mkC 0 gas w1 []                       (* len(contract.Code) == 0: Run returns nil, nil *)
+    | Some code =>
+        let '(h, f, w2, tr) := exec code (mkF [] gas 0 0) w1 [] in
+        match h with
+        | HStop => mkC 0 (f_gas f) w2 tr
+        | HReturn n =>
+            if deposit then
+              if MaxCodeSize <? n then mkC 2 0 w tr            (* ErrMaxCodeSizeExceeded: reverted, gas = 0 *)
+              else if f_gas f <? n * CreateDataGas then mkC 6 (f_gas f) w2 tr   (* ErrCodeStoreOutOfGas: NOT reverted *)
+              else mkC 0 (f_gas f - n * CreateDataGas) w2 tr   (* SetCode *)
+            else mkC 0 (f_gas f) w2 tr
+        | HRevert => mkC 1 (f_gas f) w tr                      (* revertToSnapshot, gas kept *)
+        | HFault => mkC 2 0 w tr                               (* revertToSnapshot, gas = 0 *)
+        | HFaultExt => mkC 5 0 w tr
+        end
     end.
 End Exec.
 
 Definition transfer (from to v : N) (l : list (N * N)) : list (N * N) := addb to v (subb from v l).
 
-(* core/vm/evm.go:Call.  depth = evm.depth at entry. *)
-Fixpoint call (fuel : nat) (c : ctx) (depth caller addr gas value : N) (w : world) {struct fuel} : cres :=
+(* evm.go: CallCode / DelegateCall / StaticCall: precompile (outside the domain), then
+   addr.InternalAndQuaiAddress(): ErrQiAddress / ErrExternalAddress => "gas = 0; return nil, gas, err" *)
+Definition target_err (c : ctx) (addr : N) : option N :=
+  if reserved addr then Some 4
+  else if is_qi addr then Some 2
+  else if negb (in_scope (x_pfx c) addr) then Some 5
+  else None.
+
+(* core/vm/evm.go: Call, CallCode, DelegateCall, StaticCall, Create/Create2 + create.
+   depth = evm.depth at entry, caller = caller.Address(), ro = interpreter.readOnly at entry. *)
+Fixpoint call (fuel : nat) (c : ctx) (k : fkind) (ro : bool) (depth caller addr gas value : N) (w : world) {struct fuel} : cres :=
   match fuel with
   | O => mkC 3 gas w []
   | S fuel' =>
-    if CallCreateDepth <? depth then mkC 2 gas w []                                   (* ErrDepth *)
-    else if negb (value =? 0) && negb (can_transfer c w caller value) then mkC 2 gas w []  (* ErrInsufficientBalance *)
-    else if reserved addr then mkC 4 gas w []
-    else (* snapshot := evm.snapshot() *)
-    if negb (internal_quai (x_pfx c) addr) then
-      let '(ok, r) := create_etx c caller (getb caller (w_bal w)) (lenN (w_etxs w)) addr gas value in
-      if ok then mkC 0 0 (apply_res r caller w) [EvOp 2 r]
-      else mkC 2 0 w []                                                               (* revertToSnapshot *)
-    else if negb (exists_acct c w addr) then
-      if value =? 0 then mkC 0 gas w []
-      else if CallNewAccountGas <? gas
-      then (if negb (internal_quai (x_pfx c) caller) then mkC 2 (gas - CallNewAccountGas) w []
-            else mkC 0 (gas - CallNewAccountGas) (mkW (transfer caller addr value (w_bal w)) (w_etxs w)) [])
-      else mkC 2 gas w []
-    else if negb (internal_quai (x_pfx c) caller) then mkC 2 gas w []                 (* Transfer error *)
-    else
-      let w1 := mkW (transfer caller addr value (w_bal w)) (w_etxs w) in
-      match code_of addr (x_codes c) with
-      | None | Some [] => mkC 0 gas w1 []
-      | Some code =>
-          let '(h, f, w2, tr) := exec (call fuel' c) c (depth + 1) addr code (mkF [] gas 0 0) w1 [] in
-          match h with
-          | HStop => mkC 0 (f_gas f) w2 tr
-          | HRevert => mkC 1 (f_gas f) w tr                                          (* revertToSnapshot, gas kept *)
-          | HFault => mkC 2 0 w tr                                                   (* revertToSnapshot, gas = 0 *)
-          end
-      end
+    match k with
+    | FK CkCall =>
+      if CallCreateDepth <? depth then mkC 2 gas w []                                   (* ErrDepth *)
+      else if negb (value =? 0) && negb (can_transfer c w caller value) then mkC 2 gas w []  (* ErrInsufficientBalance *)
+      else if reserved addr then mkC 4 gas w []
+      else (* snapshot := evm.snapshot() *)
+      if negb (internal_quai (x_pfx c) addr) then
+        let '(ok, r) := create_etx c caller (getb caller (w_bal w)) (lenN (w_etxs w)) addr gas value in
+        if ok then mkC 0 0 (apply_res r caller w) [EvOp 2 r]
+        else mkC 2 0 w []                                                               (* revertToSnapshot *)
+      else if negb (exists_acct c w addr) then
+        if value =? 0 then mkC 0 gas w []
+        else if CallNewAccountGas <? gas
+        then (if negb (internal_quai (x_pfx c) caller) then mkC 2 (gas - CallNewAccountGas) w []
+              else mkC 0 (gas - CallNewAccountGas) (mkW (transfer caller addr value (w_bal w)) (w_etxs w)) [])
+        else mkC 2 gas w []
+      else if negb (internal_quai (x_pfx c) caller) then mkC 2 gas w []                 (* Transfer error *)
+      else
+        let w1 := mkW (transfer caller addr value (w_bal w)) (w_etxs w) in
+        run_frame (call fuel' c) c ro (depth + 1) addr false (code_of addr (x_codes c)) gas w w1
+    | FK CkCallCode =>
+      (* the code of addr runs as the caller: no transfer, the balance check is unconditional *)
+      if CallCreateDepth <? depth then mkC 2 gas w []
+      else if negb (can_transfer c w caller value) then mkC 2 gas w []
+      else match target_err c addr with
+           | Some e => mkC e 0 w []
+           | None => run_frame (call fuel' c) c ro (depth + 1) caller false (code_of addr (x_codes c)) gas w w
+           end
+    | FK CkDelegate =>
+      if CallCreateDepth <? depth then mkC 2 gas w []
+      else match target_err c addr with
+           | Some e => mkC e 0 w []
+           | None => run_frame (call fuel' c) c ro (depth + 1) caller false (code_of addr (x_codes c)) gas w w
+           end
+    | FK CkStatic =>
+      if CallCreateDepth <? depth then mkC 2 gas w []
+      else match target_err c addr with
+           | Some e => mkC e 0 w []
+           | None => run_frame (call fuel' c) c true (depth + 1) addr false (code_of addr (x_codes c)) gas w w
+           end
+    | FCreate init naddr grind =>
+      (* Create: caller.Address().InternalAndQuaiAddress(), address grinding; create: (nonce bump, not modelled,)
+         depth, account-creation gas, CanTransfer, address checks, snapshot, CreateAccount, Transfer, Run.
+         An address collision is outside the domain (the harness drops such cases); the code deposit is in
+         [run_frame]. *)
+      if negb (internal_quai (x_pfx c) caller) then mkC 2 0 w []
+      else if gas <? grind then mkC 2 0 w []                                            (* GrindContract: out of gas *)
+      else let gas1 := gas - grind in
+      if CallCreateDepth <? depth then mkC 2 gas1 w []
+      else if negb (CallNewAccountGas <? gas1) then mkC 2 gas1 w []
+      else let gas2 := gas1 - CallNewAccountGas in
+      if negb (can_transfer c w caller value) then mkC 2 gas2 w []
+      else if negb (internal_quai (x_pfx c) naddr) then mkC 2 0 w []
+      else
+        let w1 := mkW (transfer caller naddr value (w_bal w)) (w_etxs w) in
+        run_frame (call fuel' c) c ro (depth + 1) naddr true (Some init) gas2 w w1
+    end
   end.
 
 (* ---------- lockup precompile: UnwrapQi (core/vm/contracts.go:UnwrapQi) ----------
@@ -543,11 +722,11 @@ Definition case_world (k : ecase) : world :=
   mkW (flat_map (fun x => match x with (a, b, _) => if b =? 0 then [] else [(a, b)] end) (k_accts k))
       (repeatN dummy_etx (N.to_nat (k_prefill k)) []).
 Definition case_run (k : ecase) : cres :=
-  call 1100%nat (case_ctx k) 0 (k_origin k) (k_to k) (k_gas k) (k_value k) (case_world k).
+  call 1100%nat (case_ctx k) (FK CkCall) false 0 (k_origin k) (k_to k) (k_gas k) (k_value k) (case_world k).
 
 Definition ecase_ok (k : ecase) : bool :=
   let r := case_run k in
-  (c_err r =? o_err k) && (c_gas r =? o_gas k) && evs_eqb (c_tr r) (o_tr k) &&
+  ((if c_err r =? 5 then 2 else c_err r) =? o_err k) && (c_gas r =? o_gas k) && evs_eqb (c_tr r) (o_tr k) &&
   forallb (fun x => getb (fst x) (w_bal (c_world r)) =? snd x) (o_bals k) &&
   etxs_eqb (skipn (N.to_nat (k_prefill k)) (w_etxs (c_world r))) (o_etxs k).
 
